@@ -449,9 +449,11 @@ def random_history(rnd, n, sid, length, faults):
         st = None
         if views and r < 0.25:
             v = rnd.choice(sorted(views))
-            op = rnd.choice(["v_next", "v_next", "v_next_back", "v_len", "v_size_hint", "v_drop", "v_rest", "v_clone"] +
+            op = rnd.choice(["v_next", "v_next", "v_next_back", "v_len", "v_size_hint", "v_drop", "v_rest", "v_clone", "v_nth", "v_nth_back", "v_debug"] +
                             (["v_forget"] if faults and views[v] == "drain" else []))
             st = {"op": op, "v": v}
+            if op in ("v_nth", "v_nth_back"):
+                st["i"] = rnd.choice([0, 1, 2, n, 1073741824])
             if op == "v_clone":
                 st["v2"] = 1 - v if (1 - v) not in views else v
                 if st["v2"] == v:
@@ -520,7 +522,8 @@ def random_history(rnd, n, sid, length, faults):
                 st["acc"] = rnd.choice(DEBUG_FORMS)
             elif op == "poison":
                 st["acc"] = rnd.choice(["00", "ff", "5a", "stale", "live"])
-        if faults and st and rnd.random() < 0.12 and st["op"] not in ("caller_drop", "poison", "observe", "v_forget"):
+        # (no fault inside nth on a view: how far an owning view got before the panic is not observable)
+        if faults and st and rnd.random() < 0.12 and st["op"] not in ("caller_drop", "poison", "observe", "v_forget", "v_nth", "v_nth_back"):
             st["fault"] = {"k": rnd.choice(["drop", "drop", "clone", "gen", "iter", "cmp"]), "n": rnd.randint(1, 4)}
         if st:
             steps.append(st)
@@ -575,7 +578,7 @@ def clone_scripts(n):
                         steps.append({"op": "into_iter", "h": 0, "v": 0})
                     steps += [{"op": "v_next" if j % 2 == 0 else "v_next_back", "v": 0} for j in range(pre)]
                     steps.append({"op": "v_clone", "v": 0, "v2": 1})
-                    steps += [{"op": "v_len", "v": 1}, {"op": "v_next", "v": 0}, {"op": "v_len", "v": 1}, {"op": "v_next_back", "v": 1},
+                    steps += [{"op": "v_len", "v": 1}, {"op": "v_nth", "v": 0, "i": k_id % 3}, {"op": "v_len", "v": 1}, {"op": "v_nth_back", "v": 1, "i": (k_id // 3) % 2},
                               {"op": "v_next", "v": 1}, {"op": "v_len", "v": 0}, {"op": "v_debug", "v": 1}]
                     steps += [{"op": "v_drop", "v": k_id % 2}, {"op": "v_rest", "v": 1 - k_id % 2, "i": k_id % 2}]
                     out.append({"id": "vc%d-%d" % (n, k_id), "n": n, "ty": "t", "tags": ["iter", "clone_script"], "steps": steps,
